@@ -16,6 +16,7 @@ type Tree struct {
 	E   []*Tree  `json:"e,omitempty"`
 	MK  []*Tree  `json:"mk,omitempty"`
 	ID  int      `json:"id,omitempty"`
+	FA  []int    `json:"fa,omitempty"` // ids of the fields' addresses (addressable structs only)
 	To  *Tree    `json:"to,omitempty"`
 	Nil bool     `json:"nil,omitempty"`
 }
